@@ -1623,4 +1623,264 @@ theorem link_flatten (cfg : Cfg) (es : List Ent) (hwf : EntsWF cfg es = true) :
           obtain ⟨rfl, rfl⟩ := List.cons.inj heq
           simp [hq, ht, hr]
 
+/-! ## from the decidable `FileWF'` to the structured form -/
+
+theorem parseBody_sound (l b r : List Tag) (h : parseBody l = some (b, r)) :
+    l = b ++ tENDSEC :: r ∧ bodyOK b = true := by
+  induction l generalizing b r with
+  | nil => simp [parseBody] at h
+  | cons t l ih =>
+    simp only [parseBody] at h
+    split at h
+    · rename_i ht
+      simp only [Option.some.injEq, Prod.mk.injEq] at h
+      obtain ⟨rfl, rfl⟩ := h
+      exact ⟨by simp [ht], by simp [bodyOK]⟩
+    · split at h
+      · simp at h
+      · rename_i hns
+        split at h
+        · rename_i b' r' heq
+          simp only [Option.some.injEq, Prod.mk.injEq] at h
+          obtain ⟨rfl, rfl⟩ := h
+          obtain ⟨h1, h2⟩ := ih b' r' heq
+          refine ⟨by rw [h1]; simp, ?_⟩
+          simp only [bodyOK, List.all_cons, Bool.and_eq_true] at h2 ⊢
+          refine ⟨?_, h2⟩
+          by_cases h0 : t.code = 0
+          · have : ¬(t.val = "SECTION" ∨ t.val = "ENDSEC" ∨ t.val = "EOF") := fun hv => hns ⟨h0, hv⟩
+            simp only [not_or] at this
+            simp [h0, this.1, this.2.1, this.2.2]
+          · simp [h0]
+        · simp at h
+
+theorem parseFile_sound (f : List Tag) (secs : List Section) (h : parseFile f = some secs) :
+    f = render secs ∧ ∀ s ∈ secs, bodyOK s.body = true := by
+  fun_induction parseFile f generalizing secs with
+  | case1 => simp at h
+  | case2 =>
+    simp only [Option.some.injEq] at h
+    subst h
+    simp [render]
+  | case3 tail ht => simp at h
+  | case4 ht => simp at h
+  | case5 n r2 hn b r3 hb hs ih =>
+    simp only [Option.map_eq_some_iff] at h
+    obtain ⟨secs', h1, rfl⟩ := h
+    obtain ⟨h2, h3⟩ := ih secs' h1
+    obtain ⟨h4, h5⟩ := parseBody_sound r2 b r3 hb
+    constructor
+    · have hn' : n = ⟨2, n.val⟩ := by cases n; simp_all
+      rw [h4, h2, hn']
+      simp [render, renderSec]
+    · intro s hsm
+      rcases List.mem_cons.mp hsm with rfl | hsm
+      · exact h5
+      · exact h3 s hsm
+  | case6 n r2 hn hb hs => simp at h
+  | case7 n r2 hn hs => simp at h
+  | case8 t r ht hs => simp at h
+
+theorem splitEnt_sound (secs pre post : List Section) (b : List Tag) (h : splitEnt secs = some (pre, b, post)) :
+    secs = pre ++ ⟨"ENTITIES", b⟩ :: post ∧ ∀ s ∈ pre, s.name ≠ "ENTITIES" := by
+  induction secs generalizing pre with
+  | nil => simp [splitEnt] at h
+  | cons s r ih =>
+    simp only [splitEnt] at h
+    split at h
+    · rename_i hn
+      simp only [Option.some.injEq, Prod.mk.injEq] at h
+      obtain ⟨rfl, rfl, rfl⟩ := h
+      cases s; simp_all
+    · rename_i hn
+      split at h
+      · rename_i pre' b' post' heq
+        simp only [Option.some.injEq, Prod.mk.injEq] at h
+        obtain ⟨rfl, rfl, rfl⟩ := h
+        obtain ⟨h1, h2⟩ := ih pre' heq
+        refine ⟨by rw [h1]; simp, ?_⟩
+        intro x hx
+        rcases List.mem_cons.mp hx with rfl | hx
+        · exact hn
+        · exact h2 x hx
+      · simp at h
+
+theorem dropWhile_head {α : Type} (p : α → Bool) (l : List α) : ∀ x ∈ (l.dropWhile p).head?, p x = false := by
+  induction l with
+  | nil => simp
+  | cons a r ih =>
+    cases ha : p a with
+    | true => simpa [List.dropWhile, ha] using ih
+    | false => simp [List.dropWhile, ha]
+
+theorem flatten_groupTags (l : List Tag) (h : ∀ t ∈ l.head?, t.code = 0) :
+    (groupTags l).flatten = l ∧ ∀ g ∈ groupTags l, groupOK g = true := by
+  fun_induction groupTags l with
+  | case1 => simp
+  | case2 t r h0 ih =>
+    have hd : ∀ x ∈ (r.dropWhile nz).head?, x.code = 0 := by
+      intro x hx
+      have := dropWhile_head nz r x hx
+      simpa [nz] using this
+    obtain ⟨h1, h2⟩ := ih hd
+    constructor
+    · simp only [List.flatten_cons, h1, List.cons_append, List.cons.injEq, true_and]
+      exact List.takeWhile_append_dropWhile
+    · intro g hg
+      rcases List.mem_cons.mp hg with rfl | hg
+      · simp only [groupOK, h0, beq_self_eq_true, Bool.true_and, List.all_eq_true]
+        exact takeWhile_mem nz r
+      · exact h2 g hg
+  | case3 t r h0 ih =>
+    exact absurd (h t (by simp)) h0
+
+theorem asciiLoad_clean (a : List Tag) (h : ∀ t ∈ a, t.code ≠ 999 ∧ t ≠ tEOF) : asciiLoad (a ++ [tEOF]) = a ++ [tEOF] := by
+  induction a with
+  | nil => simp [asciiLoad]
+  | cons t r ih =>
+    obtain ⟨h1, h2⟩ := h t (by simp)
+    simp only [List.cons_append, asciiLoad, h2, if_false, h1]
+    rw [ih (fun x hx => h x (by simp [hx]))]
+
+theorem render_no_eof (secs : List Section) (hb : ∀ s ∈ secs, bodyOK s.body = true) :
+    ∀ t ∈ secs.flatMap renderSec, t ≠ tEOF := by
+  intro t ht
+  obtain ⟨s, hs, hts⟩ := List.mem_flatMap.mp ht
+  simp only [renderSec, List.mem_cons, List.mem_append, List.not_mem_nil, or_false] at hts
+  rcases hts with rfl | rfl | hts | rfl
+  · simp [tSECTION, tEOF]
+  · simp [tEOF]
+  · have := hb s hs
+    simp only [bodyOK, List.all_eq_true] at this
+    have := this t hts
+    intro h; subst h; simp [tEOF] at this
+  · simp [tENDSEC, tEOF]
+
+theorem specBody_fileOf (pre post : List Section) (body : List Tag) (hpre : ∀ s ∈ pre, s.name ≠ "ENTITIES") :
+    Spec.body (pre ++ ⟨"ENTITIES", body⟩ :: post) "ENTITIES" = body := by
+  induction pre with
+  | nil => simp [Spec.body]
+  | cons s r ih =>
+    have hs := hpre s (by simp)
+    have := ih (fun x hx => hpre x (by simp [hx]))
+    simp only [Spec.body, List.cons_append, List.find?_cons, hs, decide_false] at this ⊢
+    exact this
+
+structure Bridge (cfg : Cfg) (m : Nat) (f : List Tag) (secs pre : List Section) (es : List Ent)
+    (post : List Section) : Prop where
+  parse : parseFile f = some secs
+  secsEq : secs = pre ++ ⟨"ENTITIES", flatEnts es⟩ :: post
+  file : f = fileOf pre es post
+  link : Spec.link cfg (Spec.entities secs) = es
+  pre_ok : ∀ s ∈ pre, idxSecOK m s
+  post_ok : ∀ s ∈ post, idxSecOK m s
+  wf : EntsWF cfg es = true
+  groups : entGroupsOK es = true
+  codes : ∀ g ∈ es.flatMap Ent.groups, ∀ t ∈ g, t.code ≤ m
+  ascii : asciiLoad f = f
+  comp : compile cfg f = f
+  compB : compileB cfg f = f
+  managed : cfg.managed "ENTITIES" = true
+  objects : "AC1009" < Spec.version secs → ∃ s ∈ pre ++ post, s.name = "OBJECTS"
+  pspAgree : ∀ e ∈ es, cfg.pspS e.main = cfg.psp e.main
+
+theorem idxSecOK_of (m : Nat) (s : Section) (hb : bodyOK s.body = true) (h : secOK m s = true) : idxSecOK m s := by
+  simp only [secOK, Bool.and_eq_true, bne_iff_ne, Bool.or_eq_true, codesOK, List.all_eq_true, decide_eq_true_eq] at h
+  obtain ⟨⟨h1, h2⟩, h3⟩ := h
+  refine ⟨hb, h2, h1, ?_⟩
+  intro hn
+  rcases h3 with h3 | h3
+  · exact absurd hn (by simpa using h3)
+  · simp only [headerOK, Bool.and_eq_true, List.all_eq_true] at h3
+    refine ⟨h3.1, ?_⟩
+    intro t ht
+    have := h3.2
+    rw [ht] at this
+    cases hv : isVerVar t with
+    | false => rfl
+    | true => simp only [isVerVar] at hv; simp [hv] at this
+
+theorem wf_bridge (cfg : Cfg) (m : Nat) (f : List Tag) (h : FileWF' cfg m f = true) :
+    ∃ secs pre es post, Bridge cfg m f secs pre es post := by
+  unfold FileWF' at h
+  split at h
+  · simp at h
+  · rename_i secs hparse
+    split at h
+    · simp at h
+    · rename_i pre body post hsplit
+      simp only [Bool.and_eq_true, List.all_eq_true, beq_iff_eq, Bool.or_eq_true, Bool.not_eq_true',
+        decide_eq_false_iff_not, List.any_eq_true, bne_iff_ne] at h
+      obtain ⟨⟨⟨⟨⟨⟨⟨⟨⟨hsecs, hcb⟩, h999⟩, hhead⟩, hlink⟩, hpsp⟩, hobj⟩, hcomp⟩, hcompB⟩, hman⟩ := h
+      obtain ⟨hf, hbodies⟩ := parseFile_sound f secs hparse
+      obtain ⟨hsecsEq, hprene⟩ := splitEnt_sound secs pre post body hsplit
+      have hbody : bodyOK body = true := hbodies ⟨"ENTITIES", body⟩ (by rw [hsecsEq]; simp)
+      have hhead' : ∀ t ∈ body.head?, t.code = 0 := by
+        intro t ht
+        cases hb : body.head? with
+        | none => rw [hb] at ht; simp at ht
+        | some t' => rw [hb] at ht hhead; simp at ht; subst ht; simpa using hhead
+      obtain ⟨hflat, hgok⟩ := flatten_groupTags body hhead'
+      obtain ⟨hfl, hwf⟩ := flatten_link cfg (groupTags body) hlink
+      have hflatEnts : flatEnts (Spec.link cfg (groupTags body)) = body := by
+        unfold flatEnts; rw [hfl, hflat]
+      have hent : Spec.entities secs = groupTags body := by
+        unfold Spec.entities; rw [hsecsEq, specBody_fileOf pre post body hprene]
+      refine ⟨secs, pre, Spec.link cfg (groupTags body), post, ?_⟩
+      have hpre_ok : ∀ s ∈ pre, idxSecOK m s := fun s hs =>
+        idxSecOK_of m s (hbodies s (by rw [hsecsEq]; simp [hs])) (hsecs s (by simp [hs]))
+      have hpost_ok : ∀ s ∈ post, idxSecOK m s := fun s hs =>
+        idxSecOK_of m s (hbodies s (by rw [hsecsEq]; simp [hs])) (hsecs s (by simp [hs]))
+      have hgroups : entGroupsOK (Spec.link cfg (groupTags body)) = true := by
+        rw [entGroupsOK_iff, hfl]
+        intro g hg
+        obtain ⟨t, ts, rfl, hmem, h0⟩ := groupTags_mem body g hg
+        have hb := hbody
+        simp only [bodyOK, List.all_eq_true] at hb
+        have := hb t hmem
+        have h1 : t.val ≠ "SECTION" := by intro hv; simp [h0, hv] at this
+        have h2 : t.val ≠ "ENDSEC" := by intro hv; simp [h0, hv] at this
+        have h3 : t.val ≠ "EOF" := by intro hv; simp [h0, hv] at this
+        simp [hgok _ hg, dxftype, h1, h2, h3]
+      have hcodes : ∀ g ∈ (Spec.link cfg (groupTags body)).flatMap Ent.groups, ∀ t ∈ g, t.code ≤ m := by
+        rw [hfl]
+        intro g hg t ht
+        have : t ∈ body := by rw [← hflat]; exact List.mem_flatten.mpr ⟨g, hg, ht⟩
+        simp only [codesOK, List.all_eq_true, decide_eq_true_eq] at hcb
+        exact hcb t this
+      have hfile : f = fileOf pre (Spec.link cfg (groupTags body)) post := by
+        rw [hf, hsecsEq, fileOf, hflatEnts]
+      have hascii : asciiLoad f = f := by
+        rw [hf]
+        unfold render
+        apply asciiLoad_clean
+        intro t ht
+        refine ⟨?_, render_no_eof secs hbodies t ht⟩
+        have := h999 t (by rw [hf]; unfold render; exact List.mem_append_left _ ht)
+        exact this
+      exact {
+        parse := hparse
+        secsEq := by rw [hsecsEq, hflatEnts]
+        file := hfile
+        link := by rw [hent]
+        pre_ok := hpre_ok
+        post_ok := hpost_ok
+        wf := hwf
+        groups := hgroups
+        codes := hcodes
+        ascii := hascii
+        comp := hcomp
+        compB := hcompB
+        managed := hman
+        objects := by
+          intro hv
+          rcases hobj with hobj | ⟨s, hs, hsn⟩
+          · exact absurd hv hobj
+          · exact ⟨s, hs, hsn⟩
+        pspAgree := by
+          intro e he
+          have : e.main ∈ groupTags body := by
+            rw [← hfl]; exact List.mem_flatMap.mpr ⟨e, he, by simp [Ent.groups]⟩
+          exact hpsp _ this }
+
 end EzdxfVerif.Readers
